@@ -98,10 +98,28 @@ def names(node):
     return [T.dotted(node)]
 
 
+def check_callable(rel, fn, decorators=(), defaults=None):
+    """fail closed on decorators the model does not know (memoisation!) and on optional parameters whose default is
+    not None / an immutable constant (a mutable default is shared between calls)"""
+    deco = []
+    for d in fn.decorator_list:
+        deco.append(T.dotted(d.func) if isinstance(d, ast.Call) else T.dotted(d))
+    if deco != list(decorators):
+        T.fail(rel, fn, "decorators of %s are %s, expected %s" % (fn.name, deco, list(decorators)))
+    got = []
+    for d in list(fn.args.defaults) + [d for d in fn.args.kw_defaults if d is not None]:
+        if not (isinstance(d, ast.Constant) and (d.value is None or isinstance(d.value, (bool, int, float, str)))):
+            T.fail(rel, d, "a default argument of %s is not None / an immutable constant" % fn.name)
+        got.append(d.value)
+    if defaults is not None and got != list(defaults):
+        T.fail(rel, fn, "defaults of %s are %r, expected %r" % (fn.name, got, list(defaults)))
+
+
 # ====================================================================== glob.euler_characteristic
 def gen_euler(out, parts):
     src, tree = T.load(GLOB)
     fn = T.find_def(tree, "euler_characteristic", GLOB)
+    check_callable(GLOB, fn, ("allowed_mesh_types",), ())
     parts.append(("glob.euler_characteristic", T.sha(src, fn)))
     body = T.body_nodoc(fn)
     env = {}
@@ -129,6 +147,7 @@ def gen_run(out, parts, src, tree):
     """Local names are learned from the statements (renaming a local is harmless); the eight set-up statements
     between the gate and the scatter are recognised by shape, in any order that respects their dependencies."""
     fn = T.find_def(tree, "TutteEmbedding.run", TUTTE)
+    check_callable(TUTTE, fn, (), ())
     parts.append(("TutteEmbedding.run", T.sha(src, fn)))
     b = T.body_nodoc(fn)
     if len(b) != 10:
@@ -303,6 +322,7 @@ def gen_ctor(out, parts, src, tree):
     """Which expression decides that the boundary mode is CUSTOM, as a function of how the caller wrote the optional
     keyword custom_boundary: `present` (the keyword is in kwargs) and `given_none` (its value is None)."""
     fn = T.find_def(tree, "TutteEmbedding.__init__", TUTTE)
+    check_callable(TUTTE, fn, (), ("circle", False, False))
     parts.append(("TutteEmbedding.__init__", T.sha(src, fn)))
     params = [a.arg for a in fn.args.args]
     if params != ["self", "mesh", "boundary_mode", "use_cotan", "verbose"] or fn.args.kwarg is None or fn.args.vararg is not None \
@@ -412,6 +432,7 @@ def pi_coefficient(ex, e, pi_names):
 
 def gen_boundary(out, parts, src, tree):
     fn = T.find_def(tree, "TutteEmbedding._initialize_boundary", TUTTE)
+    check_callable(TUTTE, fn, (), ())
     parts.append(("TutteEmbedding._initialize_boundary", T.sha(src, fn)))
     # how pi is imported
     pi_names = set()
@@ -567,11 +588,75 @@ def gen_boundary(out, parts, src, tree):
         out.append("\n".join(lines))
 
 
+# ====================================================================== operators.laplacian, around the face loop
+def gen_laplacian_header(out, fn):
+    """Pins where the cotangents come from (guard positions!) and how the coefficients are summed:
+         if cotan: (cot = cached attribute if present else cotangent(mesh)) else: cot = None
+         ... face loop ...
+         mat = sp.csc_matrix((coeffs,(rows,cols)), ...) ; return mat        (duplicates are SUMMED by csc_matrix)"""
+    b = T.body_nodoc(fn)
+    ifs = [x for x in b if isinstance(x, ast.If)]
+    if len(ifs) != 1:
+        T.fail(LAP, fn, "laplacian has %d top-level `if`, 1 expected (weight source)" % len(ifs))
+    w = ifs[0]
+    ok = (T.dotted(w.test) == "cotan" and len(w.body) == 1 and isinstance(w.body[0], ast.If) and len(w.orelse) == 1)
+    if not ok:
+        T.fail(LAP, w, "weight source is not `if cotan: <if cached: .. else: ..> else: cot = None`")
+    tgt, val = assign1(w.orelse[0], LAP)
+    if not (T.dotted(tgt) == "cot" and isinstance(val, ast.Constant) and val.value is None):
+        T.fail(LAP, w.orelse[0], "without cotan the weight table is not `cot = None`")
+    c = w.body[0]
+    t = c.test
+    ok = (isinstance(t, ast.Call) and T.dotted(t.func) == "mesh.face_corners.has_attribute" and len(t.args) == 1
+          and isinstance(t.args[0], ast.Constant) and t.args[0].value == "cotan" and len(c.body) == 1 and len(c.orelse) == 1)
+    if not ok:
+        T.fail(LAP, c, "cache test is not `if mesh.face_corners.has_attribute(\"cotan\")`")
+    tgt, val = assign1(c.body[0], LAP)
+    if not (T.dotted(tgt) == "cot" and isinstance(val, ast.Call) and T.dotted(val.func) == "mesh.face_corners.get_attribute"
+            and len(val.args) == 1 and isinstance(val.args[0], ast.Constant) and val.args[0].value == "cotan"):
+        T.fail(LAP, c.body[0], "cached branch is not `cot = mesh.face_corners.get_attribute(\"cotan\")`")
+    tgt, val = assign1(c.orelse[0], LAP)
+    if not (T.dotted(tgt) == "cot" and isinstance(val, ast.Call) and T.dotted(val.func) == "cotangent"
+            and [T.dotted(a) for a in val.args] == ["mesh"] and not val.keywords):
+        T.fail(LAP, c.orelse[0], "fresh branch is not `cot = cotangent(mesh)`")
+    out.append("(* where the per-corner cotangents come from: Some true = the persistent attribute \"cotan\" already on the mesh")
+    out.append("   (NOT recomputed), Some false = cotangent(mesh) computed now (and stored), None = no table (uniform weights) *)")
+    out.append("Definition lap_cot_source (cotan has_attr : bool) : option bool :=")
+    out.append("  if cotan then (if has_attr then Some true else Some false) else None.")
+    # the matrix: csc_matrix((coeffs,(rows,cols)), ...) returned as is
+    if not (len(b) >= 2 and isinstance(b[-1], ast.Return) and isinstance(b[-2], ast.Assign)):
+        T.fail(LAP, fn, "laplacian does not end with `mat = sp.csc_matrix(..); return mat`")
+    tgt, val = assign1(b[-2], LAP)
+    ok = (isinstance(tgt, ast.Name) and T.dotted(b[-1].value) == tgt.id and isinstance(val, ast.Call)
+          and T.dotted(val.func) == "sp.csc_matrix" and len(val.args) == 1 and isinstance(val.args[0], ast.Tuple)
+          and len(val.args[0].elts) == 2 and T.dotted(val.args[0].elts[0]) == "coeffs"
+          and isinstance(val.args[0].elts[1], ast.Tuple) and names(val.args[0].elts[1]) == ["rows", "cols"])
+    if not ok:
+        T.fail(LAP, b[-2], "matrix is not `sp.csc_matrix((coeffs,(rows,cols)), ..)`")
+    # n_coeffs = 12*len(mesh.faces) and the counter starts at 0
+    have = {}
+    for st in b:
+        if isinstance(st, ast.Assign) and len(st.targets) == 1 and isinstance(st.targets[0], ast.Name):
+            have[st.targets[0].id] = st.value
+    nc = have.get("n_coeffs")
+    ok = (isinstance(nc, ast.BinOp) and isinstance(nc.op, ast.Mult) and isinstance(nc.left, ast.Constant) and nc.left.value == 12
+          and isinstance(nc.right, ast.Call) and T.dotted(nc.right.func) == "len" and [T.dotted(a) for a in nc.right.args] == ["mesh.faces"])
+    c0 = have.get("_c")
+    if not ok or not (isinstance(c0, ast.Constant) and c0.value == 0):
+        T.fail(LAP, fn, "not `n_coeffs = 12*len(mesh.faces)` / `_c = 0`")
+    for arr in ("rows", "cols", "coeffs"):
+        v = have.get(arr)
+        if not (isinstance(v, ast.Call) and T.dotted(v.func) == "np.zeros" and v.args and T.dotted(v.args[0]) == "n_coeffs"):
+            T.fail(LAP, fn, "%s is not np.zeros(n_coeffs, ..)" % arr)
+
+
 # ====================================================================== operators.laplacian
 def gen_laplacian(out, parts):
     src, tree = T.load(LAP)
     fn = T.find_def(tree, "laplacian", LAP)
+    check_callable(LAP, fn, ("allowed_mesh_types",), (True, None, 4))
     parts.append(("operators.laplacian", T.sha(src, fn)))
+    gen_laplacian_header(out, fn)
     loops = [n for n in T.body_nodoc(fn) if isinstance(n, ast.For)]
     if len(loops) != 1:
         T.fail(LAP, fn, "laplacian has %d top-level loops, 1 expected" % len(loops))
@@ -670,6 +755,7 @@ def gen_laplacian(out, parts):
 def gen_flat(out, parts):
     src, tree = T.load(BASE)
     fn = T.find_def(tree, "BaseParametrization.flat_mesh", BASE)
+    check_callable(BASE, fn, ("property",), ())
     parts.append(("BaseParametrization.flat_mesh", T.sha(src, fn)))
     fors = [n for n in ast.walk(fn) if isinstance(n, ast.For)]
     if len(fors) != 2:
@@ -710,8 +796,20 @@ def gen_flat(out, parts):
     out.append("Definition flat_index_vertex (T i v : Z) : Z := (%s)%%Z." % res[1])
 
 
+BORDER = "mouette/processing/border.py"
+
+
+def gen_border(parts):
+    """extract_border_cycle is modelled by observation (C15 owns its walk); only its decorators and defaults are pinned"""
+    src, tree = T.load(BORDER)
+    fn = T.find_def(tree, "extract_border_cycle", BORDER)
+    check_callable(BORDER, fn, ("allowed_mesh_types",), (None,))
+    parts.append(("border.extract_border_cycle (signature only)", "-"))
+
+
 def gen():
     out, parts = [], []
+    gen_border(parts)
     gen_euler(out, parts)
     src, tree = T.load(TUTTE)
     gen_ctor(out, parts, src, tree)
